@@ -95,7 +95,14 @@ func (x *exch) oracle(r *hk.Run) {
 		fail("interim-count", "number of 1xx responses reported through httptrace differs from the number sent", len(s.Interims), len(a.Interim))
 	} else {
 		for i, im := range a.Interim {
-			if s.Interims[i].Code != im.Code || !reflect.DeepEqual(nonEmptyH(s.Interims[i].Header), group(im.Fields)) {
+			want := group(im.Fields)
+			if p := want["Pragma"]; x.Proto == "h1" && len(p) > 0 && p[0] == "no-cache" && len(want["Cache-Control"]) == 0 {
+				// net/http's Pragma rule (RFC 7234 5.4) applies to every HTTP/1.x response head, interim ones
+				// included: "Pragma: no-cache" without Cache-Control gets "Cache-Control: no-cache" (the same
+				// interpretation as for final responses, see transportField)
+				want["Cache-Control"] = []string{"no-cache"}
+			}
+			if s.Interims[i].Code != im.Code || !reflect.DeepEqual(nonEmptyH(s.Interims[i].Header), want) {
 				fail("interim-header", fmt.Sprintf("1xx response %d reported through httptrace differs from the one sent", i), s.Interims[i], im)
 				break
 			}
